@@ -8,7 +8,12 @@ import sys
 from pathlib import Path
 
 VERIF = Path(__file__).resolve().parent.parent
-REPO = Path("/repo")
+import os
+
+# SEED_REPO: a scratch worktree of /repo outside /repo and /verif (the checks are then run with VERIF_REPO pointing at
+# it, so /repo itself stays untouched and usable meanwhile); default: /repo itself
+REPO = Path(os.environ.get("SEED_REPO", "/repo"))
+ENV = dict(os.environ, VERIF_REPO=str(REPO))
 rows = []
 only = sys.argv[1:]
 for d in sorted((VERIF / "seeded").iterdir()):
@@ -24,7 +29,7 @@ for d in sorted((VERIF / "seeded").iterdir()):
         continue
     try:
         for p in [prop] + list(meta.get("also", [])):
-            r = subprocess.run(["./check", p, "quick"], cwd=VERIF, capture_output=True, text=True, timeout=1800)
+            r = subprocess.run(["./check", p, "quick"], cwd=VERIF, capture_output=True, text=True, timeout=1800, env=ENV)
             last = [l for l in r.stdout.splitlines() if l.startswith(p + " quick")]
             m = re.search(r"disagreements (\d+), oracle failures (\d+)", last[-1]) if last else None
             viol = [l for l in r.stdout.splitlines() if l.startswith("VIOLATION")]
